@@ -82,6 +82,18 @@ pub fn gen_history_ids(rng: &mut Rng, id_base: u32, scatter: Option<u64>) -> His
                     3 => AInst::named("FunctionEnd", None, None, vec![]),
                     4 => AInst::named("Function", Some(types.first().copied().unwrap_or(1)), Some(id), vec![AOp::w(K::FunctionControl, 0), AOp::id(2)]),
                     5 => AInst::named("Label", None, Some(id), vec![]),
+                    0 if rng.chance(1, 2) => {
+                        // capabilities and extensions (any of them, also the ones about exotic integer / float
+                        // widths): they never change how many words a literal takes
+                        let caps = crate::gram::db().enum_values(K::Capability);
+                        let live = crate::generated::decls::ENUMS.iter().find(|e| e.name == "Capability").map(|e| e.variants).unwrap_or(&[]);
+                        let v = if !live.is_empty() && rng.chance(1, 2) { live[rng.below(live.len())].1 } else { caps[rng.below(caps.len())].1 };
+                        if rng.chance(3, 4) {
+                            AInst::named("Capability", None, None, vec![AOp::w(K::Capability, v)])
+                        } else {
+                            AInst::named("Extension", None, None, vec![AOp::s(*rng.pick(&["SPV_INTEL_arbitrary_precision_integers", "SPV_KHR_bfloat16", "SPV_EXT_float8", "SPV_KHR_float_controls", "SPV_INTEL_arbitrary_precision_floating_point"]))])
+                        }
+                    }
                     0 => AInst::named("TypeBool", None, Some(id), vec![]),
                     1 => AInst::named("TypeVector", None, Some(id), vec![AOp::id(types.first().copied().unwrap_or(1)), AOp::lit(4)]),
                     _ => AInst::named("Name", None, None, vec![AOp::id(id), AOp::s("n")]),
